@@ -3402,6 +3402,21 @@ def lib_round(ev, a, k, n, mod):
 
 lib_round.kw = {"ndigits"}
 LIB.setdefault("round", lib_round)
+
+
+def lib_opaque_order(tag):
+    """numpy.sort / numpy.argsort of a symbolic vector: a reordering decided by the vector's own values"""
+    def f(ev, a, k, n, mod):
+        x = a[0]
+        if isinstance(x, ArrV) or not is_sym(as_sym(x)):
+            raise ev.err(f"numpy.{tag.lower()} of a small array is not modelled", n, mod)
+        return sp.Function(tag)(as_sym(x))
+    f.kw = {"kind", "axis", "stable"}
+    return f
+
+
+LIB.setdefault("numpy.sort", lib_opaque_order("SORT"))
+LIB.setdefault("numpy.argsort", lib_opaque_order("ARGSORT"))
 LIB["float.is_integer"] = lambda ev, a, k, n, mod: bool(as_sym(a[0]).is_Integer or (as_sym(a[0]).is_Rational and as_sym(a[0]).q == 1))
 LIB.update({"functools.reduce": lib_reduce, "operator.add": lib_operator(ast.Add), "operator.sub": lib_operator(ast.Sub), "operator.mul": lib_operator(ast.Mult),
             "operator.truediv": lib_operator(ast.Div), "operator.pow": lib_operator(ast.Pow), "operator.floordiv": lib_operator(ast.FloorDiv),
